@@ -171,7 +171,7 @@ static std::string ser(Chk const& c)
 }
 
 // value behind a real-number token of a serialised text
-template <typename T> struct tokval;
+template <typename F> struct tokval;
 template <> struct tokval<sym::real>
 {
     static bool is_token(std::string const& w) { return !w.empty() && w[0] == '@'; }
@@ -186,20 +186,21 @@ template <> struct tokval<sym::real>
         return t.scientific && t.precision >= std::numeric_limits<sym::real>::max_digits10 - 1;
     }
 };
-template <> struct tokval<double>
+template <typename F> struct tokval
 {
     static bool is_token(std::string const& w)
     {
         return w.find_first_of(".e") != std::string::npos && (std::isdigit(static_cast<unsigned char>(w[0])) || w[0] == '-' || w[0] == '+'
             || w[0] == 'n' || w[0] == 'i');
     }
-    static double get(std::string const& w) { try { return std::stod(w); } catch (...) { return std::nan(""); } }
+    static F get(std::string const& w) { try { return static_cast<F>(std::stold(w)); } catch (...) { return std::numeric_limits<F>::quiet_NaN(); } }
     static bool well_formatted(std::string const& w)
     {
-        // d.dddddddddddddddde+XX : 16 fractional digits
+        // d.ddddde+XX : max_digits10-1 fractional digits
         std::size_t p = w.find('.'), e = w.find('e');
         if (w == "nan" || w == "-nan" || w == "inf" || w == "-inf") return true;
-        return p != std::string::npos && e != std::string::npos && (e - p - 1) >= 16;
+        return p != std::string::npos && e != std::string::npos &&
+            (e - p - 1) >= static_cast<std::size_t>(std::numeric_limits<F>::max_digits10 - 1);
     }
 };
 
